@@ -174,6 +174,8 @@ func hashKey(k Value) interface{} {
 		return k.S
 	case Bool:
 		return k.V
+	case Float:
+		return [2]interface{}{"float", k.V}
 	case *Value:
 		return k
 	case Iface:
